@@ -180,9 +180,13 @@ call_out ()
 
   while (call_out_time < current_time)
     {
-      /* we increment at the end in case we are interrupted by errors,
-         but we need to use call_out_time + 1 here. */
-      tm = (call_out_time + 1) & (CALLOUT_CYCLE_SIZE - 1);
+      /* The slot of this second is decremented below, so from here on it counts as
+         served: new_call_out() and time_left() called from inside the callbacks
+         must see it in call_out_time, or an entry that lands in this very slot gets
+         one rotation (CALLOUT_CYCLE_SIZE seconds) too many. Errors raised by the
+         callbacks are caught inside this loop and do not interrupt it. */
+      call_out_time++;
+      tm = call_out_time & (CALLOUT_CYCLE_SIZE - 1);
       if (call_list[tm] && --call_list[tm]->delta == 0)
         do
           {
@@ -258,7 +262,6 @@ call_out ()
               }
           }
         while (call_list[tm] && call_list[tm]->delta == 0);
-      call_out_time++;
     }
 
   pop_context (&econ);
